@@ -17,6 +17,10 @@ httpcore = import_httpcore()
 OPTIONAL = ("server_close", "advance")
 
 
+class BusyLoop(Exception):
+    pass
+
+
 class VLoop(asyncio.SelectorEventLoop):
     def __init__(self, clock):
         super().__init__()
@@ -109,7 +113,7 @@ class Parked:
 
 class AioRun:
     def __init__(self, world: World, pool_cfg: dict, callers: list[Caller], *, choices=(), segs=(), allow_server_close=0,
-                 advances=(), on_quiescence=None, step_limit=4000, epilogue=None, gate_h2=True):
+                 advances=(), dsegs=(), on_quiescence=None, step_limit=4000, epilogue=None, gate_h2=True):
         self.world = world
         self.pool_cfg = pool_cfg
         self.callers = callers
@@ -117,6 +121,8 @@ class AioRun:
         self.ci = 0
         self.segs = list(segs)
         self.si = 0
+        self.dsegs = list(dsegs)
+        self.dsi = 0
         self.parked: list[Parked] = []
         self.seq = 0
         self.allow_server_close = allow_server_close
@@ -135,6 +141,7 @@ class AioRun:
         self.shield_depth: dict = {}
         self.harness_error = None
         self.record_sites = False
+        self.busy = None
 
     # ------------------------------------------------------------------ gate
     async def gate(self, kind, pipe, info):
@@ -215,7 +222,7 @@ class AioRun:
                     caller.scope.cancel()
 
         def on_throw(e):
-            if isinstance(e, asyncio.CancelledError) and caller.delivery_site is None:
+            if isinstance(e, asyncio.CancelledError) and caller.delivery_site is None and caller.cancel_fired_at is not None:
                 caller.delivery_site = suspension_site(caller.program_coro)
                 caller.in_shield_at_delivery = self.shield_depth.get(caller.id, 0) > 0
 
@@ -254,8 +261,8 @@ class AioRun:
                 idle = 0
             else:
                 idle += 1
-            if spins > 200000:
-                raise RuntimeError("quiesce does not settle (busy task?)")
+            if spins > 20000:
+                raise BusyLoop("the event loop never becomes quiescent: some task is spinning without waiting for anything")
         self.quiescences += 1
 
     def _h2_peers(self):
@@ -285,6 +292,9 @@ class AioRun:
         for pipe, h2 in self._h2_peers():
             for q in h2.emittable():
                 acts.append(("emit", pipe, q))
+        for pipe in self.world.pipes:
+            if pipe.in_flight or pipe.eof_pending:
+                acts.append(("deliver", pipe))
         for c in sorted(self.callers, key=lambda c: (not getattr(c, "start_first", False), c.id)):
             if c.state == "new":
                 acts.append(("start", c))
@@ -321,6 +331,13 @@ class AioRun:
         non_timer = [a for a in prog if a[0] != "timer"]
         return (non_timer or prog or acts)[0]
 
+    def _dseg(self):
+        if not self.dsegs:
+            return None
+        s = self.dsegs[self.dsi % len(self.dsegs)]
+        self.dsi += 1
+        return s or None
+
     def _seg(self):
         if not self.segs:
             return None
@@ -339,6 +356,8 @@ class AioRun:
                 p.fut.set_result(self._seg() if p.kind == "read" else None)
         elif kind == "emit":
             act[1].peer.leaf().h2.emit(act[2])
+        elif kind == "deliver":
+            act[1].deliver(self._dseg())
         elif kind == "start":
             c = act[1]
             c.state = "running"
@@ -359,11 +378,17 @@ class AioRun:
         self.loop = asyncio.get_running_loop()
         self.world.agate = self.gate
         self.world.h2_gated = self.gate_h2
+        self.world.deliver_gated = True
         self._install_shield_probe()
         try:
             self.pool = build_pool(self.world, self.pool_cfg, sync=False)
             while True:
-                await self.quiesce()
+                try:
+                    await self.quiesce()
+                except BusyLoop as exc:
+                    self.overflow = True
+                    self.busy = str(exc)
+                    break
                 if self.on_quiescence is not None:
                     self.on_quiescence(self)
                 acts = self.enabled()
@@ -383,6 +408,9 @@ class AioRun:
             # ---- wind down: nothing is gated any more
             self.world.agate = None
             self.world.h2_gated = False
+            self.world.deliver_gated = False
+            for pipe in self.world.pipes:
+                pipe.deliver()
             for pipe, h2 in self._h2_peers():
                 h2.gated = False
             for p in list(self.parked):
